@@ -18,6 +18,14 @@ def units(tier):
             for ic in (True, False):
                 us.append(dict(h="any_text", n=n, std=std, ic=ic, cost=n))
     us.append(dict(h="codec_handler", cost=0))
+    # the time bound on larger valid inputs: size-indexed families of C20 (those that are not
+    # recorded as exponential there) at a size where exponential behaviour exceeds the path limit
+    from vh import c20
+    for fam in c20.FAMILIES:
+        if fam in c20.KNOWN_EXP:
+            continue
+        for std in ("f2003", "f2008"):
+            us.append(dict(h="big", fam=fam, n=24, std=std, cost=4))
     base = PG.base_programs()
     rot = 0
     for p in base:
@@ -106,6 +114,16 @@ def mutate(ctx):
         src = src[:at] + src[at - 1:at] + src[at:]
     ctx.observe("src", src)
     run_parse(ctx, src, p["std"], p["ic"])
+
+
+def big(ctx):
+    from vh import c20
+    p = ctx.p
+    C.reset()
+    v = G.fresh_name(ctx, "v", 1)
+    src = c20.FAMILIES[p["fam"]](p["n"], [], v)
+    ctx.observe("len", len(src))
+    run_parse(ctx, src, p["std"], "!" not in src)
 
 
 class _Err:
